@@ -135,7 +135,34 @@ def run(job):
     try:
         mod = load_property(job["pid"])
         stats = Stats(job.get("known_sigs", ()))
-        if job["kind"] == "shrink":
+        if job["kind"] == "fuzz":
+            import shutil
+            import subprocess
+            import tempfile
+
+            wd = tempfile.mkdtemp(prefix="vverif_fuzz_")
+            try:
+                outp = os.path.join(wd, "out.json")
+                p = subprocess.run([sys.executable, "-m", "vverif.fuzz", job["pid"], job["component"].split("@")[0], str(job["n"]), str(job["seed"]),
+                                    outp, os.path.join(wd, "corpus")], stdout=subprocess.PIPE, stderr=subprocess.STDOUT, text=True,
+                                   timeout=max(60, job["deadline"] - time.time()))
+                if os.path.exists(outp):
+                    d = json.load(open(outp))
+                    if "skipped" in d:
+                        out["stats"] = Stats().dump()
+                        out["stats"]["labels"] = {"atheris-skipped": 1}
+                    else:
+                        for v in d.get("viol", {}).values():
+                            v["seed"], v["n"] = None, None
+                        out["stats"] = {k: d[k] for k in ("evals", "status", "labels", "nontrivial", "samples", "viol", "inconclusive")}
+                else:
+                    out["error"] = f"fuzz driver produced no output (rc={p.returncode}): {p.stdout[-1500:]}"
+            except subprocess.TimeoutExpired:
+                out["stats"] = Stats().dump()
+                out["stats"]["inconclusive"] = True
+            finally:
+                shutil.rmtree(wd, ignore_errors=True)
+        elif job["kind"] == "shrink":
             comp = {c.name: c for c in mod.COMPONENTS}[job["component"]]
             out["shrink"] = shrink(comp, job["n"], job["seed"], job["sig"], job["shrink_budget_s"], None)
         elif job["kind"] == "regress":
